@@ -30,6 +30,20 @@ CLAIMS = {
          'tokio Semaphore and DashMap contracts; interleavings follow from them (not explored)', '2/C18'),
  'C20': ('E2', 'call();poll() composition of the authorization service for both verdicts (invocation iff accepted, refusal yields exactly the authorizer response), allow-list exactness for a symbolic 2-element list and any sender',
          'finite-set model of HashSet; Request::peer_id is the authenticated sender (C01)', '2/C20'),
+ 'C01': ('E2', 'anemo\'s delegation and data flow around the TLS stack: all six handshake-signature verifiers delegate to rustls with Ed25519-only tables on their own arguments; client auth mandatory; certificate verifiers accept only after webpki self-anchored verification + name validity; identity = SPKI key of chain[0] of that connection; identity attached to requests/responses from the connection, wire headers carry no extensions',
+         'Ed25519/ring, rustls handshake state machine, webpki, x509-parser are a trusted base (not encodable: DER parsing alone exceeds 15 min / 20 GB under CBMC)', '2/C01'),
+ 'C02': ('E2', 'per-stream obligations: one fresh bi stream per RPC with request/response on its two halves, service invoked at most once after a successful decode with that request, response written = service value on the same stream, message structure of all four wire functions, SendStream drop resets, accept loop spawns one handler per stream',
+         'quinn stream isolation/ordering/no-duplication trusted; concurrency and datagram faults outside', '2/C02'),
+ 'C06': ('E1+E2', 'total decoders for untrusted bytes (preamble over all 2^64 inputs, frame head for every prefix/limit, status codes) by Kani; error confinement, accept-loop handling of stray streams/datagrams, no-panic of dispatch/fallback/timeout parsing by mirsym',
+         'bincode/serde/matchit/hashbrown panic-freedom trusted (out of reach); stream-level misbehaviour outside', '2/C06'),
+ 'C09': ('E2', 'local steps: disconnect = removal(Requested) under the lock, Peer handles only for listed connections, total namesake reason mapping, idle-timeout/keep-alive applied on every config path, handler exit removes own connection by stable id before tearing down tasks',
+         'eventual mutuality and loss detection are QUIC timers (outside)', '2/C09'),
+ 'C12': ('E2', 'cancellation mechanism: select race decided for every start index/readiness order/completion value, nothing awaited outside the race, stopped-first => no response, SendStream drop resets, connection end aborts request tasks, request failures touch only their stream',
+         'quinn reset/stop propagation and stream credit trusted', '2/C12'),
+ 'C14': ('E2', 'name plumbing: server/client certificate verifiers require accepted-name membership and name validity of the verified certificate, pinned path included; SNI table = one certificate per accepted name; dialer verifier/certificate/dial name = primary',
+         'rustls SNI selection and webpki name matching trusted', '2/C14'),
+ 'C19': ('E2', 'call();poll() composition of the rate limiter: shared limiter keyed by the request\'s peer id, service called once only after a positive limiter decision, over-quota => TooManyRequests + wait-nanos in nanoseconds from the limiter clock, no call',
+         'governor GCRA quota arithmetic trusted (not encodable)', '2/C19'),
 }
 NA = {
  'C08': 'shutdown/teardown is behaviour of the tokio runtime, quinn endpoint driver and OS over time; not a function of inputs a solver can be given, objects not constructible under Kani nor abstractable without assuming the property (DESIGN.md 4)',
